@@ -1,4 +1,6 @@
-import Comdex.Lemmas.AmmMatchAccount
+import Comdex.Lemmas.AmmMatchExact
+import Comdex.Lemmas.AmmFindPriceBook
+import Comdex.Lemmas.AmmPool
 /-!
 # C05 — Batch matching conserves coins and never fills an order beyond its limits
 
@@ -411,5 +413,226 @@ example : roundDust 300000000000000000 [7, 5] [12] = 2 ∧ sumInt [7, 5] = sumIn
 /-- `base_conserved_partial`'s hypothesis holds on a partially filled group of sells whose shares are worth something -/
 example : lossless 3 [{ d2s1 with amount := 30000, opn := 30000, offer := 30000 }, { d2s2 with amount := 30000, opn := 30000, offer := 30000 }]
     31000 100000000000000 = true := by decide
+
+
+/-! ## FindMatchPrice (the price of a pair's first batch) — modelled, no longer an input
+
+`T prec k` is the tick of index `k` at precision `prec` (`TickFromIndex`), `hiIdx prec` the index of `HighestTick`. -/
+
+/-- the order prices are ticks of precision `prec` (what `ValidateMsgLimitOrder` / `PriceLimits` establish) -/
+def OnGrid (os : List Order) (prec : Nat) : Prop :=
+  ∀ o ∈ os, ∃ k, k ≤ hiIdx prec ∧ o.price = ((T prec k : Nat) : Int)
+
+theorem findMatchPrice_some_inv (v : View) (prec : Nat) (p : Int) (h : findMatchPrice v prec = some p) :
+    ∃ hb ls, v.highestBuyPrice = some hb ∧ v.lowestSellPrice = some ls ∧ ls ≤ hb := by
+  unfold findMatchPrice at h
+  cases hhb : v.highestBuyPrice with
+  | none => rw [hhb] at h; cases h
+  | some hb =>
+    cases hls : v.lowestSellPrice with
+    | none => rw [hhb, hls] at h; cases h
+    | some ls =>
+      rw [hhb, hls] at h
+      simp only at h
+      by_cases hc : hb < ls
+      · rw [if_pos hc] at h; cases h
+      · exact ⟨hb, ls, rfl, rfl, by omega⟩
+
+/-- **a match price found by `FindMatchPrice` lies between the lowest sell and the highest buy price of the book
+(inclusive), is positive and on the tick grid** -/
+theorem found_price_in_spread (os : List Order) (prec : Nat) (hprec : 10 ^ prec < 2 ^ 300 - 1) (hw : ∀ o ∈ os, Wf o)
+    (hg : OnGrid os prec) (p : Int) (h : findMatchPrice (makeView (newBook os)) prec = some p) :
+    ∃ ls hb, (makeView (newBook os)).lowestSellPrice = some ls ∧ (makeView (newBook os)).highestBuyPrice = some hb ∧
+      ls ≤ p ∧ p ≤ hb ∧ 0 < p ∧ isTick p prec = true ∧ monMatchPrice (makeView (newBook os)) prec p = true := by
+  obtain ⟨hb, ls, hhb, hls, hc⟩ := findMatchPrice_some_inv _ prec p h
+  obtain ⟨k, a, b, hf, ha, hb', hak, hkb⟩ :=
+    findMatchPrice_crossing _ prec hprec (makeView_ok os prec hw hg) hb ls hhb hls hc
+  rw [hf] at h; cases h
+  have h1 : ls ≤ ((T prec k : Nat) : Int) := by rw [ha]; exact_mod_cast T_mono prec hak
+  have h2 : ((T prec k : Nat) : Int) ≤ hb := by rw [hb']; exact_mod_cast T_mono prec hkb
+  have h3 : (0 : Int) < ((T prec k : Nat) : Int) := by
+    have := T_pos prec k
+    have : 0 < T prec k := Nat.lt_of_lt_of_le (Nat.pow_pos (by omega)) this
+    exact_mod_cast this
+  refine ⟨ls, hb, hls, hhb, h1, h2, h3, isTick_T prec k, ?_⟩
+  unfold monMatchPrice
+  rw [hhb, hls]
+  have hTpos : 0 < T prec k := by exact_mod_cast h3
+  simp [h1, h2, hTpos, isTick_T prec k]
+
+/-- **found ⇔ the book crosses** (there is a buy and a sell, and the highest buy price is not below the lowest sell price) -/
+theorem found_price_iff_crossing (os : List Order) (prec : Nat) (hprec : 10 ^ prec < 2 ^ 300 - 1)
+    (hw : ∀ o ∈ os, Wf o) (hg : OnGrid os prec) :
+    (findMatchPrice (makeView (newBook os)) prec).isSome = monCrossing (makeView (newBook os)) := by
+  cases hf : findMatchPrice (makeView (newBook os)) prec with
+  | some p =>
+    obtain ⟨hb, ls, hhb, hls, hc⟩ := findMatchPrice_some_inv _ prec p hf
+    unfold monCrossing; rw [hhb, hls]; simp [hc]
+  | none =>
+    unfold monCrossing
+    cases hhb : (makeView (newBook os)).highestBuyPrice with
+    | none => simp
+    | some hb =>
+      cases hls : (makeView (newBook os)).lowestSellPrice with
+      | none => simp
+      | some ls =>
+        simp only [Option.isSome_none]
+        by_cases hc : ls ≤ hb
+        · obtain ⟨k, _, _, hf', _⟩ :=
+            findMatchPrice_crossing _ prec hprec (makeView_ok os prec hw hg) hb ls hhb hls hc
+          rw [hf] at hf'; cases hf'
+        · simp [hc]
+
+/-- **at a found match price both sides of the book offer a positive amount** (amounts as the order-book view counts them:
+every order's matchable amount at its OWN price) -/
+theorem found_price_amounts_positive (os : List Order) (prec : Nat) (hprec : 10 ^ prec < 2 ^ 300 - 1)
+    (hw : ∀ o ∈ os, Wf o) (hg : OnGrid os prec) (p : Int) (h : findMatchPrice (makeView (newBook os)) prec = some p) :
+    0 < (makeView (newBook os)).buyAmountOver p ∧ 0 < (makeView (newBook os)).sellAmountUnder p := by
+  obtain ⟨ls, hb, hls, hhb, h1, h2, _⟩ := found_price_in_spread os prec hprec hw hg p h
+  have hv := makeView_ok os prec hw hg
+  exact ⟨(View.buy_pos_iff hv hb hhb p).mpr h2, (View.sell_pos_iff hv ls hls p).mpr h1⟩
+
+/-- …but NOT necessarily a positive `MatchableAmount` at the match price itself: a buy of 1 @ 2.0 and a sell of 3 @ 0.4
+cross, `FindMatchPrice` answers 0.4, and at 0.4 the buyer's one unit is worth ⌊0.4⌋ = 0 quote units, so `MatchableAmount`
+is 0 and `MatchAtSinglePrice` matches nothing (harmless: the batch simply does not trade; ~1.7 % of the generated
+first batches with a found price). -/
+theorem found_price_unmatchable_counterexample :
+    let b : Order := { id := 0, kind := 2, oid := 0, dir := .buy, price := 2000000000000000000, amount := 1, offer := 2,
+                       opn := 1, paid := 0, received := 0, batchId := 0 }
+    let s : Order := { id := 1, kind := 2, oid := 0, dir := .sell, price := 400000000000000000, amount := 3, offer := 3,
+                       opn := 3, paid := 0, received := 0, batchId := 0 }
+    findMatchPrice (makeView (newBook [b, s])) 1 = some 400000000000000000 ∧
+    totalMatchable [b] 400000000000000000 = 0 ∧ matchFirstBatch (newBook [b, s]) 1 = .noMatch := by
+  set_option maxRecDepth 20000 in
+  refine ⟨by decide, by decide, by decide⟩
+
+/-- the keeper's first batch (`FindMatchPrice` then `MatchAtSinglePrice` at the price the MODEL finds): never a panic; every
+order of the result is an input order with the facts of `Delta` — **limit_respected** (`Delta.buy_price`, `Delta.sell_price`,
+`Delta.wf`, `Delta.positive`) no longer for an arbitrary fed price but for the price `FindMatchPrice` returns -/
+theorem limit_respected_first_batch (os : List Order) (prec : Nat) (hprec : 10 ^ prec < 2 ^ 300 - 1)
+    (hw : ∀ o ∈ os, Wf o) (hg : OnGrid os prec) :
+    matchFirstBatch (newBook os) prec = .noMatch ∨
+    ∃ b' q, matchFirstBatch (newBook os) prec = .ok b' q ∧ ∀ o' ∈ b'.orders, ∃ o ∈ os, Delta o o' := by
+  unfold matchFirstBatch
+  cases hf : findMatchPrice (makeView (newBook os)) prec with
+  | none => left; rfl
+  | some p =>
+    obtain ⟨_, _, _, _, _, _, hp, _⟩ := found_price_in_spread os prec hprec hw hg p hf
+    exact single_delta os hw p hp
+
+/-- **price_uniform**: in the first batch every order is either untouched or filled exactly ONCE, for some amount `a > 0`
+within `MatchableAmount`, at the ONE price `p` that `FindMatchPrice` returned — a buyer pays `⌈p·a⌉` and receives `a`, a seller
+pays `a` and receives `⌊p·a⌋` (`fill_price_booked`), and `p` is within every filled order's limit -/
+theorem price_uniform_first_batch (os : List Order) (prec : Nat) (hprec : 10 ^ prec < 2 ^ 300 - 1)
+    (hw : ∀ o ∈ os, Wf o) (hg : OnGrid os prec) (b' : Book) (q : Int)
+    (h : matchFirstBatch (newBook os) prec = .ok b' q) :
+    ∃ p, findMatchPrice (makeView (newBook os)) prec = some p ∧
+      ∀ o' ∈ b'.orders, ∃ o ∈ os, o' = o ∨ ∃ a, GoodFill o a p ∧ o' = (fillRaw o a p).1 := by
+  unfold matchFirstBatch at h
+  cases hf : findMatchPrice (makeView (newBook os)) prec with
+  | none => rw [hf] at h; cases h
+  | some p =>
+    rw [hf] at h
+    simp only at h
+    obtain ⟨_, _, _, _, _, _, hp, _⟩ := found_price_in_spread os prec hprec hw hg p hf
+    refine ⟨p, rfl, ?_⟩
+    rcases matchAtSinglePrice_at (newBook os) p hp (newBook_ok os hw) with h0 | ⟨b2, q2, h2, r1, r2⟩
+    · rw [h0] at h; cases h
+    · rw [h2] at h; cases h
+      intro o' ho'
+      unfold Book.orders at ho'
+      rcases List.mem_append.mp ho' with hm | hm
+      · obtain ⟨o, ho, r⟩ := ticksAt_orders r1 hm
+        exact ⟨o, mem_newBook os o (by unfold Book.orders; exact List.mem_append_left _ ho), r⟩
+      · obtain ⟨o, ho, r⟩ := ticksAt_orders r2 hm
+        exact ⟨o, mem_newBook os o (by unfold Book.orders; exact List.mem_append_right _ ho), r⟩
+
+/-- non-vacuity: the example book is on the grid of precision 1 (0.9 and 1.1 are the ticks of index 1520 and 1531), crosses, and its first
+batch trades at the tick 1.1 (the demand 15000 exceeds the supply 12000 up to there) -/
+example : findMatchPrice (makeView (newBook exOrders)) 1 = some 1100000000000000000 ∧
+    (match matchFirstBatch (newBook exOrders) 1 with | .ok _ _ => true | _ => false) = true ∧
+    T 1 1520 = 900000000000000000 ∧ T 1 1531 = 1100000000000000000 := by
+  set_option maxRecDepth 20000 in
+  refine ⟨by decide, by decide, by decide, by decide⟩
+
+
+/-! ## the pool side of a batch (basic pools) — modelled, no longer an input
+
+`rx` quote reserve, `ry` base reserve; raw prices are ×10^18 (`Dec.P`). -/
+
+/-- **`BasicPool.BuyAmountOver`**: the amount `a` a pool offers to buy at price `t` costs at most its quote reserve, and
+`t·(ry + a) ≤ rx`, i.e. the pool pays at most `rx / (ry + a)` — on its constant-product curve the trade does not decrease
+`rx·ry` (before the buyer-side rounding-up of the payment, which costs the pool less than one quote unit) -/
+theorem pool_buy_amount_on_curve (pl : BPool) (t a : Int) (hry : 0 ≤ pl.ry) (ht : minPoolPrice ≤ t)
+    (h : pl.buyAmountOver t = some a) (ha : 0 < a) :
+    quoteCeil t a ≤ pl.rx ∧ t * (pl.ry + a) ≤ pl.rx * Dec.P :=
+  (buyAmountOver_spec pl t a hry ht h).2 ha
+
+/-- **`BasicPool.SellAmountUnder`** (prices up to 10^18): the amount `a` offered for sale at `t` is covered by the base reserve
+and `rx ≤ t·(ry − a)`, i.e. the pool receives at least `rx / (ry − a)` per unit -/
+theorem pool_sell_amount_on_curve (pl : BPool) (t a : Int) (hrx : 0 ≤ pl.rx) (ht0 : 0 < t) (ht : t ≤ Dec.PP)
+    (h : pl.sellAmountUnder t = some a) (ha : 0 < a) :
+    a ≤ pl.ry ∧ pl.rx * Dec.P ≤ t * (pl.ry - a) :=
+  (sellAmountUnder_spec pl t a hrx ht0 ht h).2 ha
+
+/-- **`PoolBuyOrders`**: every order the tick loop places is (replayed on the running reserves, `monPoolBuys`) covered by the
+quote reserve and not above the curve; the only other order is the one `BuyAmountTo` contributes at the upper price limit when
+the pool price is above it (approximate square roots: monitored, not proved).  Hence the pool never offers more quote coin
+than it holds. -/
+theorem pool_buy_orders_within_reserves_and_curve (pl : BPool) (lowest highest : Int) (prec : Nat) (hry : 0 ≤ pl.ry)
+    (hlow : minPoolPrice ≤ lowest) : BuysOk pl highest (poolBuyOrders pl lowest highest prec) :=
+  poolBuyOrders_ok pl lowest highest prec hry hlow
+
+/-- **`PoolSellOrders`** likewise (price limits up to 10^18); here the `SellAmountTo` order too is proved to be covered by the
+base reserve -/
+theorem pool_sell_orders_within_reserves_and_curve (pl : BPool) (lowest highest : Int) (prec : Nat) (hrx : 0 ≤ pl.rx)
+    (hry : 0 ≤ pl.ry) (hhigh : highest ≤ Dec.PP) : SellsOk pl lowest (poolSellOrders pl lowest highest prec) :=
+  poolSellOrders_ok pl lowest highest prec hrx hry hhigh
+
+/-- the totals: quote coin offered by the buy orders ≤ `rx`, base coin offered by the sell orders ≤ `ry` (for lists that satisfy
+the replayed conditions) -/
+theorem pool_offers_within_reserves (pl : BPool) (bl sl : List (Int × Int)) (hb : monPoolBuys pl bl = true)
+    (hs : monPoolSells pl sl = true) :
+    (bl ≠ [] → sumInt (bl.map fun pa => quoteCeil pa.1 pa.2) ≤ pl.rx) ∧ (sl ≠ [] → sumInt (sl.map fun pa => pa.2) ≤ pl.ry) :=
+  ⟨fun hne => (monPoolBuys_total pl bl hb).resolve_right hne, fun hne => (monPoolSells_total pl sl hs).resolve_right hne⟩
+
+/-- non-vacuity: a pool 10^6 : 10^6 (price 1.0) inside the limits 0.9 … 1.1 at precision 2 places 37 buy orders starting at 0.999
+and they satisfy the replayed conditions -/
+example : (poolBuyOrders ⟨1000000, 1000000⟩ 900000000000000000 1100000000000000000 2).length = 37 ∧
+    monPoolBuys ⟨1000000, 1000000⟩ (poolBuyOrders ⟨1000000, 1000000⟩ 900000000000000000 1100000000000000000 2) = true ∧
+    monPoolSells ⟨1000000, 1000000⟩ (poolSellOrders ⟨1000000, 1000000⟩ 900000000000000000 1100000000000000000 2) = true := by
+  set_option maxRecDepth 100000 in
+  refine ⟨by decide, by decide, by decide⟩
+
+
+/-! ## the exact characterisation of defect D2 -/
+
+/-- **Base coin over a whole `Match`, exactly**: the sellers never pay more base coin than the buyers receive, and they pay
+exactly as much **if and only if** `matchLossless` holds — i.e. no sell-side pro-rata distribution (in the single-price step at
+the last price or in an iteration of the two-sided loop) re-ran on orders that cannot absorb the amount it was given.  The
+ghost is computed from the INPUT alone, so it predicts on which books D2 strikes (the driver uses it: a non-conserving real
+result is reported as the known `base_conserved` only where the ghost predicts it, as `base_conserved_unexplained` otherwise). -/
+theorem base_conserved_iff_lossless (os : List Order) (hw : ∀ o ∈ os, Wf o) (hids : (os.map (·.id)).Nodup)
+    (lp : Int) (hlp : 0 < lp) (b' : Book) (mp q : Int) (h : matchBook (newBook os) lp = .ok b' mp q) :
+    ticksFilled (newBook os).sells b'.sells ≤ ticksFilled (newBook os).buys b'.buys ∧
+    (ticksFilled (newBook os).buys b'.buys = ticksFilled (newBook os).sells b'.sells ↔
+      matchLossless (newBook os) lp = true) :=
+  matchBook_exact (newBook os) lp hlp (newBook_ok os hw) (newBook_ids os hids) b' mp q h
+
+/-- the same for `MatchAtSinglePrice` (first batch): with `x` the matchable amount, buyers receive `x`, sellers pay `≤ x`, and
+`= x` iff `ticksLossless` -/
+theorem base_conserved_iff_lossless_single (os : List Order) (hw : ∀ o ∈ os, Wf o) (hnd : os.Nodup) (p : Int) (hp : 0 < p)
+    (b' : Book) (q : Int) (h : matchAtSinglePrice (newBook os) p = .ok b' q) :
+    ∃ x, findMatchableAmount (newBook os) p = some x ∧ ticksFilled (newBook os).buys b'.buys = x ∧
+      ticksFilled (newBook os).sells b'.sells ≤ x ∧
+      (ticksFilled (newBook os).sells b'.sells = x ↔ ticksLossless (newBook os).sells x p = true) :=
+  matchAtSinglePrice_exact (newBook os) p hp (newBook_ok os hw) (newBook_nodup os hnd) b' q h
+
+/-- and at its root: `DistributeOrderAmountToOrders` hands out at most `amt`, and exactly `amt` iff the orders that are finally
+filled after its re-runs can absorb `amt` (`lossless`) -/
+theorem distribution_exact_iff_lossless (os : List Order) (amt p : Int) (hp : 0 < p) (hamt : 0 ≤ amt) (hw : ∀ o ∈ os, Wf o)
+    (plan : List (Order × Int)) (h : planOrders (os.length + 1) os amt p = some plan) :
+    planSum plan ≤ amt ∧ (planSum plan = amt ↔ lossless (os.length + 1) os amt p = true) :=
+  planOrders_sum_iff _ os amt p hp hamt hw plan h
 
 end Comdex.C05
